@@ -608,7 +608,12 @@ class QuorumSensing:
         abstain_votes: list[Vote]
     ) -> QuorumResult:
         """Fixed threshold count (e.g., need exactly N permits)."""
-        threshold = int(self.custom_threshold or len(self.colony) // 2 + 1)
+        raw_threshold = self.custom_threshold or len(self.colony) // 2 + 1
+        if 0 < raw_threshold < 1:
+            # A fractional threshold is a share of the colony (at least one permit)
+            threshold = max(1, math.ceil(raw_threshold * len(self.colony)))
+        else:
+            threshold = int(raw_threshold)
 
         reached = len(permit_votes) >= threshold
         decision = VoteType.PERMIT if reached else VoteType.BLOCK
